@@ -68,7 +68,10 @@ fn decode_inner(buf: &mut BytesMut) -> Result<Option<(RequestId, (Tag, Vec<Contr
         Some(tags) => tags,
         None => return Err(decoding_error),
     };
-    let mut maybe_controls = tags.pop().expect("element");
+    let mut maybe_controls = match tags.pop() {
+        Some(tag) => tag,
+        None => return Err(decoding_error),
+    };
     let has_controls = match maybe_controls {
         StructureTag {
             id,
@@ -86,13 +89,19 @@ fn decode_inner(buf: &mut BytesMut) -> Result<Option<(RequestId, (Tag, Vec<Contr
             // but AD puts it outside, where the optional controls belong. This confuses
             // our parser, which doesn't expect the extra sequence element at the end
             // and crashes. This match arm thus ignores the element.
-            maybe_controls = tags.pop().expect("element");
+            maybe_controls = match tags.pop() {
+                Some(tag) => tag,
+                None => return Err(decoding_error),
+            };
             false
         }
         _ => false,
     };
     let (protoop, controls) = if has_controls {
-        (tags.pop().expect("element"), Some(maybe_controls))
+        match tags.pop() {
+            Some(tag) => (tag, Some(maybe_controls)),
+            None => return Err(decoding_error),
+        }
     } else {
         (maybe_controls, None)
     };
@@ -100,17 +109,17 @@ fn decode_inner(buf: &mut BytesMut) -> Result<Option<(RequestId, (Tag, Vec<Contr
         Some(controls) => parse_controls(controls),
         None => vec![],
     };
-    let msgid = match parse_uint(
-        tags.pop()
-            .expect("element")
-            .match_class(TagClass::Universal)
-            .and_then(|t| t.match_id(Types::Integer as u64))
-            .and_then(|t| t.expect_primitive())
-            .expect("message id")
-            .as_slice(),
-    ) {
-        Ok((_, id)) => id as i32,
-        _ => return Err(decoding_error),
+    let msgid = match tags
+        .pop()
+        .and_then(|t| t.match_class(TagClass::Universal))
+        .and_then(|t| t.match_id(Types::Integer as u64))
+        .and_then(|t| t.expect_primitive())
+    {
+        Some(id) => match parse_uint(id.as_slice()) {
+            Ok((_, id)) => id as i32,
+            _ => return Err(decoding_error),
+        },
+        None => return Err(decoding_error),
     };
     Ok(Some((msgid, (Tag::StructureTag(protoop), controls))))
 }
